@@ -1,5 +1,6 @@
 """C03 — treap = sequence under split/merge/insert/remove/first/last/collect/size with lazy modifications
-and per-subtree aggregates, for every assignment of priorities (rlib/treap)."""
+and per-subtree aggregates, for every assignment of priorities (rlib/treap).  remove_at is observed through the COMPLETE
+item it returns (every field), and through "move" = remove_at followed by insert_at of that very item object."""
 ID = "C03"
 CRATE = "c03"
 COQ_DIR = "C03"
@@ -23,13 +24,13 @@ THEOREMS = [
     ('c03_insert_at',
      'forall (T M V A : Type) (update : T -> option T -> option T -> T) (push : T -> option T -> option T -> T * option T * option T) (size : T -> Z) (modify : M -> T -> T) (elem : T -> V) (agg : T -> A) (act : M -> V -> V) (aggf : list V -> A) (Pending : T -> list M -> Prop), lawful update push size modify elem agg act aggf Pending -> forall (t : tree) (k : Z) (x : T) (p : Z) (xs : list V), Rep size elem agg act aggf Pending t xs -> Fresh size elem agg aggf Pending x -> Rep size elem agg act aggf Pending (insert_at update push size t k x p) (firstn (Z.to_nat k) xs ++ elem x :: skipn (Z.to_nat k) xs)'),
     ('c03_remove_at',
-     "forall (T M V A : Type) (update : T -> option T -> option T -> T) (push : T -> option T -> option T -> T * option T * option T) (size : T -> Z) (modify : M -> T -> T) (elem : T -> V) (agg : T -> A) (act : M -> V -> V) (aggf : list V -> A) (Pending : T -> list M -> Prop), lawful update push size modify elem agg act aggf Pending -> forall (t : tree) (k : Z) (xs : list V) (t' : tree) (res : option T), Rep size elem agg act aggf Pending t xs -> remove_at update push size t k = (t', res) -> Rep size elem agg act aggf Pending t' (firstn (Z.to_nat k) xs ++ skipn (S (Z.to_nat k)) xs) /\\ option_map elem res = nth_error xs (Z.to_nat k)"),
+     "forall (T M V A : Type) (update : T -> option T -> option T -> T) (push : T -> option T -> option T -> T * option T * option T) (size : T -> Z) (modify : M -> T -> T) (elem : T -> V) (agg : T -> A) (act : M -> V -> V) (aggf : list V -> A) (Pending : T -> list M -> Prop), lawful update push size modify elem agg act aggf Pending -> forall (t : tree) (k : Z) (xs : list V) (t' : tree) (res : option T), Rep size elem agg act aggf Pending t xs -> remove_at update push size t k = (t', res) -> Rep size elem agg act aggf Pending t' (firstn (Z.to_nat k) xs ++ skipn (S (Z.to_nat k)) xs) /\\ option_map elem res = nth_error xs (Z.to_nat k) /\\ (forall x : T, res = Some x -> Fresh size elem agg aggf Pending x)"),
     ('c03_first_last_collect_size',
      "forall (T M V A : Type) (update : T -> option T -> option T -> T) (push : T -> option T -> option T -> T * option T * option T) (size : T -> Z) (modify : M -> T -> T) (elem : T -> V) (agg : T -> A) (act : M -> V -> V) (aggf : list V -> A) (Pending : T -> list M -> Prop), lawful update push size modify elem agg act aggf Pending -> forall (t : tree) (xs : list V), Rep size elem agg act aggf Pending t xs -> (forall t' res, first push t None = (t', res) -> Rep size elem agg act aggf Pending t' xs /\\ option_map elem res = hd_error xs) /\\ (forall t' res, last push t None = (t', res) -> Rep size elem agg act aggf Pending t' xs /\\ option_map elem res = last_error xs) /\\ (forall t' ys, collect push t None = (t', ys) -> Rep size elem agg act aggf Pending t' xs /\\ map elem ys = xs) /\\ tsize size t = len xs /\\ option_map agg (item t) = match xs with [] => None | _ => Some (aggf xs) end"),
     ('c03_modify_root',
      'forall (T M V A : Type) (update : T -> option T -> option T -> T) (push : T -> option T -> option T -> T * option T * option T) (size : T -> Z) (modify : M -> T -> T) (elem : T -> V) (agg : T -> A) (act : M -> V -> V) (aggf : list V -> A) (Pending : T -> list M -> Prop), lawful update push size modify elem agg act aggf Pending -> forall (m : M) (t : tree) (xs : list V), Rep size elem agg act aggf Pending t xs -> Rep size elem agg act aggf Pending (modify_root modify m t) (map (act m) xs)'),
     ('c03_history',
-     'forall (T M V A : Type) (update : T -> option T -> option T -> T) (push : T -> option T -> option T -> T * option T * option T) (size : T -> Z) (modify : M -> T -> T) (elem : T -> V) (agg : T -> A) (act : M -> V -> V) (aggf : list V -> A) (Pending : T -> list M -> Prop), lawful update push size modify elem agg act aggf Pending -> forall (ps : list Z) (ops : list op) (sst : list (list V)) (outs : list output), Forall (op_fresh size elem agg aggf Pending) ops -> srun elem act aggf [] ops = Some (sst, outs) -> run_outputs update push size modify elem agg ps ops = outs /\\ Forall2 (Rep size elem agg act aggf Pending) (run_final update push size modify elem agg ps ops) sst'),
+     'forall (T M V A : Type) (update : T -> option T -> option T -> T) (push : T -> option T -> option T -> T * option T * option T) (size : T -> Z) (modify : M -> T -> T) (elem : T -> V) (agg : T -> A) (act : M -> V -> V) (aggf : list V -> A) (Pending : T -> list M -> Prop), lawful update push size modify elem agg act aggf Pending -> forall (ps : list Z) (ops : list op) (sst : list (list V)) (outs : list output), Forall (op_fresh size elem agg aggf Pending) ops -> srun elem act aggf [] ops = Some (sst, outs) -> map (out_elem elem) (run_outputs update push size modify elem agg ps ops) = outs /\\ Forall (out_fresh size elem agg aggf Pending) (run_outputs update push size modify elem agg ps ops) /\\ Forall2 (Rep size elem agg act aggf Pending) (run_final update push size modify elem agg ps ops) sst'),
     ('c03_isz_lawful',
      'lawful isz_update isz_push isize isz_modify ix ism Z.add zsum isz_pending'),
     ('c03_model_check_spec_check',
@@ -39,7 +40,12 @@ THEOREMS = [
     ('c03_ihash_lawful',
      'lawful ihs_update ihs_push hsz ihs_modify hx ihs_agg Z.add hashagg ihs_pending'),
 ]
-RULE = ("every priority assignment {0..n-1}^n (ties included) for n <= 4 (quick) / 5 (thorough) on a build / root-modify / split / aggregate / modify / merge / observe history, plus random multi-treap op histories (1-45 ops, up to 6 live treaps, up to ~35 elements) over three item kinds (lazy add + sum; "
+RULE = ("every priority assignment {0..n-1}^n (ties included) for n <= 4 (quick) / 5 (thorough) on a build / root-modify / split / aggregate / modify / merge / observe history; "
+        "the same assignments on a build / root-modify / MOVE (remove_at(k), then insert_at(k2, the returned item object) on the same treap: every pair (k, k2) for "
+        "n <= 3 (quick) / 4 (thorough), so the removed node is every inner node with one or two children, the root, every leaf) / size / aggregate / collect / split_at / "
+        "sizes and aggregates of both parts / move across the two treaps / merge / split_at / observe history, over all three item kinds, and with the treap's own "
+        "priorities and the real insert_at for n <= 5 (quick) / 8 (thorough); every remove_at (alone or in a move) shows the COMPLETE returned item "
+        "(element, aggregate, size, pending tag, extra fields); plus random multi-treap op histories (1-45 ops, up to 6 live treaps, up to ~35 elements) over three item kinds (lazy add + sum; "
         "assign-or-add + sum, non-commuting modifications; lazy add + positional hash mod 65521, an ORDER-SENSITIVE "
         "aggregate that exposes exchanged children: its histories read the root aggregate after about half of the structural "
         "operations, of every split-out middle and of every final treap, start from a pre-built treap of up to 14 elements, "
@@ -47,10 +53,11 @@ RULE = ("every priority assignment {0..n-1}^n (ties included) for n <= 4 (quick)
         "after remove / after insert aggregates); priorities injected through the public field: random 32-bit, "
         "tiny range (ties), all equal, increasing, decreasing, or the generator's own draws (real insert_at, stream predicted "
         "by the plugin); histories are biased to the split-modify-merge pattern (range modify / range aggregate), sorted-set "
-        "insertion through split_by, boundary positions 0/len/len+1; non-trivial = a root modification on a treap with >= 2 "
+        "insertion through split_by, moves within one treap and between two live treaps (about 6% of the operations), boundary positions 0/len/len+1; non-trivial = a root modification on a treap with >= 2 "
         "elements is followed by a split/merge/insert/remove and then by an observation")
 TRUSTED = ["executor harness/crates/c03 (drives rlib_treap::{Treap,TreapNode} through the public API; overwrites the public "
-           "priority field of new nodes; prints outputs, raw shapes and final collects)",
+           "priority field of new nodes; prints outputs, raw shapes and final collects; prints every field of an item returned by remove_at before "
+           "handing that same object to insert_at in a move)",
            "checks/c03.py (history generator, Coq term printer, prediction of the thread-local generator's draws for native cases)"]
 ASSUMPTIONS = ["items are the harness items (i64, values small enough never to overflow; the positional-hash item of C03 kind 2 reduces mod 65521, every product < 2^40) — the theorems are generic over any lawful item",
                "Box ownership / Option<Box<..>> modelled as a functional tree; usize positions as Z (no operation can overflow)",
@@ -105,6 +112,11 @@ def py_step(L, op):
         i = op[1]
         if i < len(L) and op[2] < len(L[i]):
             L[i].pop(op[2])
+    elif k == "V":
+        i, j = op[1], op[3]
+        if i < len(L) and j < len(L) and op[2] < len(L[i]):
+            v = L[i].pop(op[2])
+            L[j].insert(min(op[4], len(L[j])), v)
     elif k == "U":
         i = op[1]
         if i < len(L):
@@ -152,9 +164,11 @@ def gen_history(rng, nops, kind, mode, maxel=35, prebuild=0):
     def emit(op):
         ops.append(op)
         py_step(L, op)
-        if kind == 2 and op[0] in "MABIRU" and L and rng.chance(1, 2):
-            # results of merge/split are at the end of the list; insert/remove/modify act in place
-            if op[0] in "IRU":
+        if kind == 2 and op[0] in "MABIRUV" and L and rng.chance(1, 2):
+            # results of merge/split are at the end of the list; insert/remove/modify/move act in place
+            if op[0] == "V":
+                t = op[3]
+            elif op[0] in "IRU":
                 t = op[1]
             elif op[0] == "M":
                 t = len(L) - 1
@@ -210,15 +224,27 @@ def gen_history(rng, nops, kind, mode, maxel=35, prebuild=0):
             emit(["A", i, pos(len(xs))])
         elif r < 45 and total() < maxel:
             emit(["I", i, pos(len(xs)), rng.range(-50, 50), prio()])
-        elif r < 52:
+        elif r < 50:
             if xs and rng.chance(15, 16):
                 emit(["R", i, rng.below(len(xs))])
             else:
                 emit(["R", i, len(xs) + rng.below(2)])
-        elif r < 62:
+        elif r < 57:
+            # move: remove_at on treap i, insert_at of the returned item object on treap j (the same one half of the time)
+            j = i if (n == 1 or rng.chance(1, 2)) else rng.below(n)
+            if xs and rng.chance(15, 16):
+                k = rng.below(len(xs))
+                tl = len(L[j]) - (1 if j == i else 0)
+            else:
+                k = len(xs) + rng.below(2)
+                tl = len(L[j])
+            emit(["V", i, k, j, pos(tl), prio()])
+            if rng.chance(1, 2):
+                emit([rng.choice(["S", "S", "G", "C"]), j])
+        elif r < 65:
             m = modifier()
             emit(["U", i, m[0], m[1], kind])
-        elif r < 72 and n + 2 <= 6 and len(xs) >= 1:
+        elif r < 74 and n + 2 <= 6 and len(xs) >= 1:
             # range modify or range aggregate on [l, r] of treap i: split, split, act, merge, merge
             l_, r_ = sorted([rng.below(len(xs)), rng.below(len(xs))])
             emit(["A", i, r_ + 1])            # t12 at n-1 (after removal), t3 at n
@@ -241,12 +267,12 @@ def gen_history(rng, nops, kind, mode, maxel=35, prebuild=0):
                 emit(["M", t1, t2])
                 n4 = len(L)
                 emit(["M", n4 - 1, n4 - 2])
-        elif r < 78 and n + 1 <= 6:
+        elif r < 79 and n + 1 <= 6:
             # split_by with a prefix-monotone predicate elem < c
             cands = [c for c in (set(xs) | {x + 1 for x in xs} | {-100, 100}) if monotone(xs, c)]
             c = rng.choice(sorted(cands))
             emit(["B", i, c])
-        elif r < 83 and n + 2 <= 6 and total() < maxel and monotone(xs, 10 ** 9) and xs == sorted(xs):
+        elif r < 84 and n + 2 <= 6 and total() < maxel and monotone(xs, 10 ** 9) and xs == sorted(xs):
             # sorted-set insertion as in the suite's `set` test: split_by(< v), merge(l, merge(new, r))
             v = rng.range(-50, 50)
             emit(["B", i, v])
@@ -255,7 +281,7 @@ def gen_history(rng, nops, kind, mode, maxel=35, prebuild=0):
             emit(["M", n3 - 3, n3 - 1])       # l ++ [v]
             n4 = len(L)
             emit(["M", n4 - 1, n4 - 2])       # (l ++ [v]) ++ r
-        elif r < 87:
+        elif r < 88:
             emit(["f", i])
         elif r < 91:
             emit(["l", i])
@@ -329,8 +355,63 @@ def exhaustive_hash(nmax):
     return cases
 
 
+MOVE_VALUES = [10 * (i + 1) for i in range(12)]
+
+
+def move_ops(n, kind, idx, k, k2, prios, pnew, pnew2):
+    """build [10, 20, ...] by appends with the given priorities (`prios[i]`; ignored in native cases), attach a
+    modification to the root (it is pending on the inner nodes when remove_at descends), move position k to position k2
+    with the returned item object, observe size / root aggregate / collect; split, observe both sides; move the first
+    element of the left part to the end of the right part (across two treaps), observe; merge back, split again, observe"""
+    ops = [["F", MOVE_VALUES[0], prios[0]]]
+    for i in range(1, n):
+        ops.append(["I", 0, i, MOVE_VALUES[i], prios[i]])
+    ops.append(["U", 0, "s", 7, kind] if (kind == 1 and idx % 2) else ["U", 0, "a", 7, kind])
+    ops += [["V", 0, k, 0, k2, pnew], ["S", 0], ["G", 0], ["C", 0]]
+    cut = idx % (n + 1)
+    ops += [["A", 0, cut], ["S", 0], ["S", 1], ["G", 0], ["G", 1]]
+    ops += [["V", 0, 0, 1, n, pnew2], ["S", 0], ["S", 1], ["G", 1], ["C", 1]]
+    ops += [["M", 0, 1], ["S", 0], ["G", 0], ["A", 0, (idx // 2) % (n + 1)], ["S", 0], ["S", 1], ["G", 0], ["G", 1],
+            ["M", 0, 1], ["C", 0], ["f", 0], ["l", 0]]
+    return ops
+
+
+def exhaustive_move(nmax, full_upto, kinds=(0, 1, 2)):
+    """every priority assignment {0..n-1}^n (ties included) for n <= nmax, so that the removed position is, over the
+    family, every inner node with one or two children, the root, every leaf.  n <= full_upto: every pair (removed
+    position, insert position); larger n: one pair per assignment, cycling through all pairs.  The node created by the
+    re-insertion gets a priority in 0..n (cycling).  Item kinds cycle."""
+    import itertools
+    cases, idx = [], 0
+    for n in range(1, nmax + 1):
+        pairs = [(k, k2) for k in range(n) for k2 in range(n)]
+        for f in itertools.product(range(n), repeat=n):
+            chosen = pairs if n <= full_upto else [pairs[(idx * 7 + 3) % len(pairs)]]
+            for (k, k2) in chosen:
+                idx += 1
+                kind = kinds[idx % len(kinds)]
+                ops = move_ops(n, kind, idx, k, k2, f, (idx // 3) % (n + 1), (idx // 5) % (n + 1))
+                cases.append({"kind": kind, "native": False, "mode": "exhaustive-move", "ops": ops})
+    return cases
+
+
+def native_move(nmax, kinds=(0, 1, 2)):
+    """the same histories with the treap's own priorities and the real insert_at, every pair of positions, every kind"""
+    cases, idx = [], 0
+    for n in range(2, nmax + 1):
+        for k in range(n):
+            for k2 in range(n):
+                for kind in kinds:
+                    idx += 1
+                    ops = move_ops(n, kind, idx, k, k2, [0] * n, 0, 0)
+                    cases.append({"kind": kind, "native": True, "mode": "native-move", "ops": ops})
+    return cases
+
+
 def generate(rng, tier):
     cases = exhaustive_small(4 if tier == "quick" else 5)
+    cases += exhaustive_move(4, 3) if tier == "quick" else exhaustive_move(5, 4)
+    cases += native_move(5 if tier == "quick" else 8)
     n = 1400 if tier == "quick" else 30000
     for t in range(n):
         kind = t % 2
@@ -364,6 +445,8 @@ def case_prios(c):
             ps.append(op[2])
         elif op[0] == "I" and op[1] < len(L):
             ps.append(op[4])
+        elif op[0] == "V" and op[1] < len(L) and op[3] < len(L) and op[2] < len(L[op[1]]):
+            ps.append(op[5])     # the re-insertion creates a node; nothing is created when remove_at panics
         py_step(L, op)
     if c.get("native"):
         return lcg_prios(len(ps))
@@ -381,6 +464,8 @@ def harness_line(c):
             toks.append("I:%d:%d:%d:%s" % (op[1], op[2], op[3], "n" if nat else op[4]))
         elif k == "U":
             toks.append("U:%d:%s:%d" % (op[1], op[2], op[3]))
+        elif k == "V":
+            toks.append("V:%d:%d:%d:%d:%s" % (op[1], op[2], op[3], op[4], "n" if nat else op[5]))
         else:
             toks.append(":".join([k] + [str(x) for x in op[1:]]))
     return " ".join(toks)
@@ -410,6 +495,8 @@ def coq_op(op):
         return "CInsert %s %s %s" % (nat(op[1]), z(op[2]), z(op[3]))
     if k == "R":
         return "CRemove %s %s" % (nat(op[1]), z(op[2]))
+    if k == "V":
+        return "CMove %s %s %s %s" % (nat(op[1]), z(op[2]), nat(op[3]), z(op[4]))
     if k == "U":
         return "CMod %s (%s %s)" % (nat(op[1]), "MSet" if op[2] == "s" else "MAdd", z(op[3]))
     return "%s %s" % ({"f": "CFirst", "l": "CLast", "C": "CCollect", "S": "CSize", "G": "CAgg"}[k], nat(op[1]))
@@ -430,7 +517,11 @@ def coq_out(tok):
     if tag == "s":
         return "OSize %s" % z(int(val))
     if tag == "r":
-        return "ORemoved %s" % z(int(val))
+        # the complete returned item: element, aggregate, size and the three further numbers of dump()
+        f = [int(v) for v in val.split(",")]
+        if len(f) != 6:
+            raise ValueError("removed item with %d fields: %r" % (len(f), tok))
+        return "ORemoved (RItem %s)" % " ".join(z(v) for v in f)
     if tag == "c":
         return "OList [%s]" % "; ".join(z(int(v)) for v in val.split(",") if v != "")
     raise ValueError("unknown output token %r" % tok)
@@ -464,9 +555,9 @@ def nontrivial(c, obs):
     for op in c["ops"]:
         if stage == 0 and op[0] == "U":
             stage = 1
-        elif stage == 1 and op[0] in ("A", "B", "M", "I", "R"):
+        elif stage == 1 and op[0] in ("A", "B", "M", "I", "R", "V"):
             stage = 2
-        elif stage == 2 and op[0] in ("C", "G", "f", "l", "R"):
+        elif stage == 2 and op[0] in ("C", "G", "f", "l", "R", "V"):
             return True
     return False
 
@@ -505,7 +596,8 @@ MANIFEST = {
             "as len), c03_split_by_rep (take_while/drop_while for prefix-monotone predicates), c03_insert_at, c03_remove_at (returns the "
             "k-th element; out of range = panic, sequence unchanged), c03_first_last_collect_size (+ root aggregate = fold of exactly that "
             "subsequence), c03_modify_root (a root modification reaches exactly that treap's elements, once, in attachment order), "
-            "c03_history (outputs of any history = outputs of the list-of-lists specification, for every priority stream), lawfulness of "
+            "c03_history (outputs of any history - including move = remove_at then insert_at of the returned item object - = outputs of the list-of-lists "
+            "specification, and every item handed out by remove_at is Fresh, for every priority stream), lawfulness of "
             "the ItemSized-like item (c03_isz_lawful), of an assign-vs-add item (c03_iaa_lawful) and of a positional-hash item whose "
             "aggregate is order-sensitive (c03_ihash_lawful: exchanged children change it), c03_model_check_spec_check (agreement with the model implies the "
             "specification on every correspondence case). The model is tied to the code on every run: histories are run on the real Treap "
